@@ -47,6 +47,30 @@ def run(rep):
             if rng.random() < 0.3:
                 o += ",alpha=1"
             cs.add(f"optlog {o} - {png.hex()}", png=png, opts=o, bd=bd, ctr=ct_, pal=pal, gray=gray, inter=inter, orig=png, tok=tok)
+    # targeted strata (seeded round 3): inputs on which a transformation of a DISABLED class would clearly pay off
+    import chunkgen
+    for j in range(24 if quick else 240):
+        if j % 2 == 0:
+            # palette changes disabled, everything else on, expensive presets: an indexed image whose palette order is bad
+            # (shuffled palette, spatially coherent picture) - any palette sorter that runs would win
+            w, h = rng.choice([(24, 24), (32, 16), (40, 30)])
+            ncol = rng.choice([8, 24, 64, 200])
+            pal = [tuple(rng.randrange(256) for _ in range(3)) + (255,) for _ in range(ncol)]
+            idx = [[((x // 3 + y // 2) * 7 % ncol,) for x in range(w)] for y in range(h)]
+            tok = pg.img_token(w, h, 3, 8, False, pal, pg.pack_image(idx, w, h, 3, 8, False))
+            png = e2e.png_from_token(rng, tok)
+            o = f"preset={rng.choice([3, 4, 5, 6])},bd={rng.choice('01')},ct=1,pal=0,gray={rng.choice('01')},interlace=keep,recode=1,force={rng.choice('01')}"
+            cs.add(f"optlog {o} - {png.hex()}", png=png, opts=o, bd=o.split("bd=")[1][0], ctr="1", pal="0", gray=o.split("gray=")[1][0], inter="keep", orig=png, tok=tok)
+        else:
+            # grayscale changes disabled on gray-valued truecolour images that carry colour-space chunks, under policies that
+            # rewrite those chunks (the option value is adjusted while chunks are pre-processed)
+            ct, depth = rng.choice([(2, 8), (6, 8), (2, 16)])
+            w, h = rng.choice([(16, 16), (20, 12)])
+            tok, _ = imggen.gen(rng, ct, depth, w, h, False, "gray", "none")
+            png = chunkgen.gen_png(rng, tok=tok, with_colorspace=rng.choice(["iccp-srgb", "both", "sRGB", "iccp-other"]), dup=False)[0]
+            pol = rng.choice(["safe", "keep:" + b"sRGB".hex() + "+" + b"iCCP".hex(), "keep:" + b"sRGB".hex(), "strip:" + b"tEXt".hex(), "none"])
+            o = f"preset={rng.choice([0, 2, 3])},bd=1,ct=1,pal=1,gray=0,interlace=keep,recode=1,strip={pol}"
+            cs.add(f"optlog {o} - {png.hex()}", png=png, opts=o, bd="1", ctr="1", pal="1", gray="0", inter="keep", orig=png, tok=tok)
     # the documented identity: --nx --nz (all off, keep interlacing, no recoding)
     for j in range(20 if quick else 300):
         ct, depth = pg.LEGAL[j % 15]
